@@ -114,21 +114,29 @@ Definition acyclic_closureb (ds : Z -> hist) (nodes : list Z) : bool :=
   forallb (fun r => negb (memZ r (descendants ds (S (length nodes)) r))) nodes.
 
 (* length of the longest chain of member edges between relations with history that starts at
-   x, explored to depth [fuel] *)
-Fixpoint height (ds : Z -> hist) (fuel : nat) (x : Z) : nat :=
-  match fuel with
-  | O => O
-  | S f =>
-      if has_history ds x
-      then S (fold_right (fun m acc => Nat.max (if has_history ds m then height ds f m else O) acc) O
-                         (nodup Z.eq_dec (members_of ds x)))
-      else O
+   x, explored to depth k: computed for all [nodes] at once, k rounds over a table (a direct
+   recursion would enumerate every path) *)
+Definition lookup_rank (tbl : list (Z * nat)) (x : Z) : nat :=
+  match find (fun p => fst p =? x) tbl with Some p => snd p | None => O end.
+
+Definition heights_step (ds : Z -> hist) (nodes : list Z) (tbl : list (Z * nat)) : list (Z * nat) :=
+  map (fun x =>
+         (x, if has_history ds x
+             then S (fold_right (fun m acc => Nat.max (if has_history ds m then lookup_rank tbl m else O) acc)
+                                O (members_of ds x))
+             else O)) nodes.
+
+Fixpoint heights (ds : Z -> hist) (nodes : list Z) (k : nat) : list (Z * nat) :=
+  match k with
+  | O => map (fun x => (x, O)) nodes
+  | S j => heights_step ds nodes (heights ds nodes j)
   end.
 
 (* acyclicity as the case oracle decides it: the heights are a rank that strictly decreases
    along every member edge between relations with history.  This is literally the hypothesis
    of the children-first theorem (Properties/C14.v, C14_acyclicb_rank). *)
-Definition rank_of (ds : Z -> hist) (nodes : list Z) : Z -> nat := height ds (S (length nodes)).
+Definition rank_of (ds : Z -> hist) (nodes : list Z) : Z -> nat :=
+  lookup_rank (heights ds nodes (S (length nodes))).
 
 Definition acyclicb (ds : Z -> hist) (nodes : list Z) : bool :=
   forallb (fun x =>
